@@ -26,3 +26,35 @@ def register(reg):
       "= equality of str.upper forms (differs from casefold only for non-ASCII existing names such as U+212A). "
       "Engine-level use (AddColumn/AddTable) exercised separately.",
       "Lean 4 theorems (induction + pigeonhole termination) + differential correspondence + direct oracle")
+
+  reg("C35", "proof",
+      "schedule.py (parser recognisers, Delta, _round_down_to_unit, Schedule.series) and DATE of date.py are modelled over "
+      "integer microseconds with proleptic-Gregorian civil arithmetic (daysFromCivil/civilFromDays round trips, month lengths "
+      "28..31 and year>=1900 proved).  Proved for ALL starts/ends/counts: series_spec_fixed / series_spec_months / series_exact "
+      "(result = first `count` elements, strictly increasing, of {unit boundary + k*interval + slot} inside [start,end], nothing "
+      "skipped) for interval >= 1 and slots increasing inside one interval; boundary_fixed/boundary_monthly; termination within "
+      "count+2 passes; parse_error_value_partial (a rejected string whose numeric fields are <= 10^7 is a ValueError); and the NEGATIONS with concrete witnesses for an interval of 0 units (never terminates), boundaries before "
+      "1900 (DATE adds 1900) and OverflowError from large numerals.  Only differentially validated: that the hand-written model "
+      "equals the Python (parsed structure, error class and generated times on structured, unordered, invalid, junk and exhaustive "
+      "token streams), the ValueError class of invalid strings, zone-aware starts (oracle only).",
+      "naive/UTC starts modelled; zone-aware starts oracle-only; ASCII strings; occurrences representable (year<=9999); "
+      "theorem hypotheses: boundary >= 1900-01-01, interval >= 1; month-based slots proved for offsets < 28 days (others via the "
+      "semantic precondition InOrder of series_exact). Four recorded findings (known_findings.json).",
+      "Lean 4 theorems by induction over the generator loop + omega calendar arithmetic; differential correspondence; brute-force oracle")
+
+  reg("C14", "proof",
+      "SortKey.__lt__ (incl. the type-rank fallback), Python's bisect_left/right, RecordSet._at/_bisect_find/_find_eq, "
+      "FindOps.lt/le/gt/ge/eq/previous/next/rank and PREVIOUS/NEXT/RANK/_sorted_lookup are modelled line by line "
+      "(GristModel/SortedFind.lean). Proved for all inputs: bisect_left_spec/bisect_right_spec (index = number of elements "
+      "strictly before / not after the probe, for any list sorted by any strict weak order), keyLt_strictWeakOrder "
+      "(SortKey order is a strict weak order on None/bool/int/str keys with '-' flags), find_lt|le|gt|ge|eq_scan (each find "
+      "op equals the linear scan of the ordered set under the same comparison, search values of any length), lookup_sorted / "
+      "lookup_sorted_unique (the ordered group is the unique sorted permutation), previous_next_rank_spec (own index found "
+      "because row id is the last sort component; neighbour / 1-based rank, asc and desc). Differentially validated only: "
+      "that the model matches the real code - every case is run through a live engine (formula columns using find.*, "
+      "PREVIOUS/NEXT/RANK, 9 order_by variants, with/without group_by) and through the compiled model, and an independent "
+      "linear-scan oracle is evaluated on the engine's outputs.",
+      "values None/bool/int/str (no floats/NaN, lists, dates); manualSort positions distinct integers; row ids distinct positive; "
+      "tables <= 6 rows; thorough adds all key sequences of length <= 5 over [None, True, 1, 'a'] x 34 probes; lookup index "
+      "maintenance and type conversion of lookup keys are not modelled (C13/C05).",
+      "Lean 4 theorems (binary search over a prefix-closed predicate + lexicographic strict weak order) + differential correspondence through a live engine")
